@@ -22,11 +22,16 @@ pub struct OpSpec {
     pub headers_without_parts: bool,
     /// odd-numbered header elements live in the imported namespace, even-numbered ones in the WSDL's
     pub mixed_header_ns: bool,
+    /// the header part names CONTAIN the body part name (body `payload`, headers `payloadHeader<i>`)
+    pub overlapping_part_names: bool,
+    /// the other namespace declares global elements with the SAME local names as the ones this
+    /// operation binds (they are never referenced)
+    pub shadow_elements: bool,
 }
 
 impl OpSpec {
     pub fn simple(name: &str) -> OpSpec {
-        OpSpec { name: name.into(), output: true, in_headers: 0, out_headers: 0, explicit_parts: false, action: true, part_named_as_element: false, imported_ns: false, headers_without_parts: false, mixed_header_ns: false }
+        OpSpec { name: name.into(), output: true, in_headers: 0, out_headers: 0, explicit_parts: false, action: true, part_named_as_element: false, imported_ns: false, headers_without_parts: false, mixed_header_ns: false, overlapping_part_names: false, shadow_elements: false }
     }
     pub fn label(&self) -> String {
         format!(
@@ -54,7 +59,7 @@ pub fn wsdl_with(ops: &[OpSpec], service: &str, address: &str) -> SchemaSet {
         w.service = service.into();
         w.address = address.into();
     }
-    let any_imported = ops.iter().any(|o| o.imported_ns || o.mixed_header_ns);
+    let any_imported = ops.iter().any(|o| o.imported_ns || o.mixed_header_ns || o.shadow_elements);
     if any_imported {
         let t = XsdFile { name: "types.xsd".into(), tns: NS_T.into(), prefixes: vec![("t".into(), NS_T.into())], default_ns: None, imports: vec![], comps: vec![] };
         s.files.push(t);
@@ -76,7 +81,7 @@ fn add_op(s: &mut SchemaSet, o: &OpSpec) {
     let req_el = name.to_string();
     let resp_el = format!("{name}Response");
     new_elems.push(anon_element(&req_el, vec![el("Arg", TypeRef::b("string")), el_occ("Count", TypeRef::b("int"), 0, Max::N(1))]));
-    let pname = |el: &str| if o.part_named_as_element { el.to_string() } else { "parameters".to_string() };
+    let pname = |el: &str| if o.part_named_as_element { el.to_string() } else if o.overlapping_part_names { "payload".to_string() } else { "parameters".to_string() };
     let mut in_parts = vec![Part { name: pname(&req_el), element: QName::new(&ens, &req_el) }];
     let mut in_h = vec![];
     let mut other_ns_elems: Vec<Comp> = vec![];
@@ -89,7 +94,7 @@ fn add_op(s: &mut SchemaSet, o: &OpSpec) {
         } else {
             new_elems.push(anon_element(&hn, vec![el("Token", TypeRef::b("string"))]));
         }
-        let pn = if o.part_named_as_element { hn.clone() } else { format!("hdr{i}") };
+        let pn = if o.part_named_as_element { hn.clone() } else if o.overlapping_part_names { format!("payloadHeader{i}") } else { format!("hdr{i}") };
         in_parts.push(Part { name: pn.clone(), element: QName::new(&hns, &hn) });
         in_h.push((format!("{name}In"), pn));
     }
@@ -103,7 +108,7 @@ fn add_op(s: &mut SchemaSet, o: &OpSpec) {
         for i in 0..o.out_headers {
             let hn = format!("{name}RespHdr{i}");
             new_elems.push(anon_element(&hn, vec![el("Info", TypeRef::b("string"))]));
-            let pn = if o.part_named_as_element { hn.clone() } else { format!("rhdr{i}") };
+            let pn = if o.part_named_as_element { hn.clone() } else if o.overlapping_part_names { format!("payloadHeader{i}") } else { format!("rhdr{i}") };
             out_parts_v.push(Part { name: pn.clone(), element: QName::new(&ens, &hn) });
             out_h.push((format!("{name}Out"), pn));
         }
@@ -117,6 +122,18 @@ fn add_op(s: &mut SchemaSet, o: &OpSpec) {
         s.wsdl.as_mut().unwrap().schema.comps.extend(new_elems);
         if !other_ns_elems.is_empty() {
             s.files.iter_mut().find(|f| f.name == "types.xsd").unwrap().comps.extend(other_ns_elems);
+        }
+    }
+    if o.shadow_elements {
+        // same local names, other namespace, different content
+        let mut shadows = vec![anon_element(&req_el, vec![el("ShadowArg", TypeRef::b("long"))]), anon_element(&resp_el, vec![el("ShadowResult", TypeRef::b("long"))])];
+        for i in 0..o.in_headers {
+            shadows.push(anon_element(&format!("{name}Hdr{i}"), vec![el("ShadowToken", TypeRef::b("long"))]));
+        }
+        if o.imported_ns {
+            s.wsdl.as_mut().unwrap().schema.comps.extend(shadows);
+        } else {
+            s.files.iter_mut().find(|f| f.name == "types.xsd").unwrap().comps.extend(shadows);
         }
     }
     let w = s.wsdl.as_mut().unwrap();
@@ -163,6 +180,16 @@ pub fn wsdl_states(depth2: bool) -> Vec<State> {
     prods.push(("input-headers-in-two-namespaces".into(), Box::new(|o: &mut OpSpec| {
         o.in_headers = 3;
         o.mixed_header_ns = true;
+    })));
+    prods.push(("header-part-names-contain-body-part-name-parts-absent".into(), Box::new(|o: &mut OpSpec| {
+        o.in_headers = 1;
+        o.out_headers = 1;
+        o.headers_without_parts = true;
+        o.overlapping_part_names = true;
+    })));
+    prods.push(("same-element-names-in-the-imported-namespace".into(), Box::new(|o: &mut OpSpec| {
+        o.in_headers = 1;
+        o.shadow_elements = true;
     })));
     prods.push(("output-headers-bound-body-parts-absent".into(), Box::new(|o: &mut OpSpec| {
         o.out_headers = 2;
